@@ -309,6 +309,84 @@ func RunWitnessPure(p *Prog, r *Report) {
 	if n < 5 {
 		r.Fail("UNRESOLVED", "-", "-", "witness-accessors", "-", fmt.Sprintf("%d accessors found, confirmed 5", n))
 	}
+	// the schema object is shared by every JSON conversion and witness construction of a circuit: its methods are
+	// read-only (no store / map update that reaches memory shared with the caller's Schema)
+	ns := 0
+	for _, fn := range p.Funcs {
+		pk := FuncPkg(fn)
+		if pk == nil || pk.Path() != modPath+"/frontend/schema" || fn.Parent() != nil || fn.Synthetic != "" {
+			continue
+		}
+		if fn.Signature.Recv() == nil || namedName(fn.Signature.Recv().Type()) != "Schema" || len(fn.Params) == 0 {
+			continue
+		}
+		ns++
+		if pos, ok := mutatesShared(fn, fn.Params[0]); ok {
+			r.Fail("WIT-PURE", pk.Path(), FuncName(fn), "no-schema-write", p.Pos(pos), "method of the shared Schema object writes memory reachable from the receiver (field, slice element or map entry): objects or values cached there leak from one witness conversion into the next")
+		} else {
+			r.Pass("WIT-PURE", pk.Path(), FuncName(fn), "no-schema-write", p.Pos(FuncPos(fn)), "method does not write memory reachable from the Schema receiver", true)
+		}
+	}
+	if ns < 2 {
+		r.Fail("UNRESOLVED", "-", "-", "schema-methods", "-", fmt.Sprintf("%d Schema methods found, confirmed 2 (Instantiate, WriteSequence)", ns))
+	}
+}
+
+// mutatesShared: fn stores (or map-updates) through memory reachable from parameter pm that is shared with the
+// caller: anything behind a pointer parameter, and for a by-value struct parameter anything behind a slice, map or
+// pointer held in it (writes to the local copy itself are harmless).
+func mutatesShared(fn *ssa.Function, pm *ssa.Parameter) (token.Pos, bool) {
+	_, ptr := pm.Type().Underlying().(*types.Pointer)
+	var reach func(v ssa.Value, d int) (bool, bool) // (rooted at pm, crossed a reference)
+	reach = func(v ssa.Value, d int) (bool, bool) {
+		if d > 12 {
+			return false, false
+		}
+		switch x := v.(type) {
+		case *ssa.Parameter:
+			return x == pm, ptr
+		case *ssa.Alloc:
+			if sv := singleStore(x); sv != nil {
+				if q, ok := sv.(*ssa.Parameter); ok && q == pm {
+					return true, ptr
+				}
+			}
+			return false, false
+		case *ssa.FieldAddr:
+			return reach(x.X, d+1)
+		case *ssa.Field:
+			return reach(x.X, d+1)
+		case *ssa.IndexAddr:
+			return reach(x.X, d+1)
+		case *ssa.Slice:
+			return reach(x.X, d+1)
+		case *ssa.UnOp:
+			if x.Op == token.MUL {
+				ok, crossed := reach(x.X, d+1)
+				switch x.Type().Underlying().(type) {
+				case *types.Slice, *types.Map, *types.Pointer:
+					crossed = true
+				}
+				return ok, crossed
+			}
+		}
+		return false, false
+	}
+	for _, b := range fn.Blocks {
+		for _, ins := range b.Instrs {
+			switch x := ins.(type) {
+			case *ssa.Store:
+				if ok, crossed := reach(x.Addr, 0); ok && crossed {
+					return x.Pos(), true
+				}
+			case *ssa.MapUpdate:
+				if ok, _ := reach(x.Map, 0); ok {
+					return x.Pos(), true
+				}
+			}
+		}
+	}
+	return token.NoPos, false
 }
 
 // RunWitnessTypeSwitches: all type switches over the witness vector have identical case sets.
